@@ -526,10 +526,40 @@ func ClassifyHang() (dump string, libBlocked []string) {
 	for _, x := range b2 {
 		still[x] = true
 	}
+	var stuck []string
 	for _, x := range b1 {
 		if still[x] {
-			libBlocked = append(libBlocked, x[strings.Index(x, "\x00")+1:])
+			stuck = append(stuck, x)
 		}
+	}
+	// goroutines that are running, or waiting to run, inside a library function are either spinning there or
+	// slow (a machine with many times more runnable threads than cores): a spin never ends, so they are given
+	// up to 90 more seconds to leave that function before they count
+	runnableOnly := func(xs []string) bool {
+		for _, x := range xs {
+			if !strings.Contains(x, "\x00goroutine [runnable]") && !strings.Contains(x, "\x00goroutine [running]") {
+				return false
+			}
+		}
+		return len(xs) > 0
+	}
+	for waited := 0; waited < 90 && runnableOnly(stuck); waited += 3 {
+		time.Sleep(3 * time.Second)
+		_, bn := classifyOnce()
+		now := map[string]bool{}
+		for _, x := range bn {
+			now[x] = true
+		}
+		var keep []string
+		for _, x := range stuck {
+			if now[x] {
+				keep = append(keep, x)
+			}
+		}
+		stuck = keep
+	}
+	for _, x := range stuck {
+		libBlocked = append(libBlocked, x[strings.Index(x, "\x00")+1:])
 	}
 	return d1, libBlocked
 }
